@@ -470,6 +470,22 @@ func genCase(rt *rapid.T, exact bool) rlCase {
 		case k == 18 && !exact && rapid.IntRange(0, 2).Draw(rt, "reallyClose") == 0:
 			c.Ops = append(c.Ops, op{Kind: rapid.SampledFrom([]string{"close", "cancel"}).Draw(rt, "how")})
 		default:
+			// a long uninterrupted stream: far more extensions of one window than the backoff needs to saturate
+			if k == 19 && rapid.IntRange(0, 3).Draw(rt, "stream") == 0 {
+				m := rapid.SampledFrom([]int{12, 36, 70, 140}).Draw(rt, "streamLen")
+				gap := rapid.Bool().Draw(rt, "streamGap")
+				for j := 0; j < m; j++ {
+					if exact {
+						c.Ops = append(c.Ops, op{Kind: "add"})
+					} else {
+						c.Ops = append(c.Ops, op{Kind: "burst", N: 1 + j%3, G: 1 + j%2})
+					}
+					if gap && j%4 == 3 {
+						c.Ops = append(c.Ops, op{Kind: "adv", Adv: "1ms"})
+					}
+				}
+				continue
+			}
 			if exact {
 				c.Ops = append(c.Ops, op{Kind: "add"})
 			} else {
